@@ -15,7 +15,7 @@
 (* share no code with naga): every observed record must be allowed, every  *)
 (* key must be observed, no key twice.                                     *)
 (*                                                                         *)
-(* M = [globals |-> << [name, kind, group, binding, gform, bform] >>,      *)
+(* M = [globals |-> << [name, kind, group, binding, gform, bform, rev] >>, *)
 (*      helpers |-> << [name, uses, pairs, calls] >>,                      *)
 (*      eps     |-> << [name, stage, wg, wgn, wgforms, params, result,     *)
 (*                      uses, pairs, calls] >>]                            *)
@@ -25,10 +25,13 @@
 (*           used together; calls: indices of helpers called               *)
 (*   param / result = [kind |-> "bare" | "struct" | "none", sname, ios]    *)
 (*   io = [name, ty, b |-> "builtin" | "location", builtin, loc, lform,    *)
-(*         interp, sampling, invariant, blend, blform]                     *)
+(*         interp, sampling, invariant, blend, blform, rev]                *)
 (*   *form fields are the SPELLING of the attribute argument in the WGSL   *)
 (*   text (plain 3, usuffix 3u, isuffix 3i, hex 0x3, const K, expr 2+1);   *)
 (*   WGSL gives all of them the same value, so no rule below looks at them *)
+(*   rev (globals and ios) is the ORDER in which the attributes are written *)
+(*   (@binding before @group, @interpolate before @location, @invariant     *)
+(*   before @builtin ...): WGSL gives it no meaning; no rule looks at it    *)
 (*                                                                         *)
 (* Sources of the rules.                                                   *)
 (*  WGSL (W3C) 13.3 / 12.3: @group/@binding, @location, @builtin,          *)
